@@ -7,6 +7,7 @@ import (
 	"math/rand"
 	"sort"
 	"strings"
+	"time"
 
 	"github.com/herohde/morlock/pkg/board"
 	"github.com/herohde/morlock/pkg/board/fen"
@@ -294,7 +295,12 @@ func textfuzz(args []string) {
 			for _, t := range line {
 				_ = e2.Move(ctx, t)
 			}
-			w.Emit(tryMove(ctx, e2, c))
+			ev := tryMove(ctx, e2, c)
+			w.Emit(ev)
+			if ev["outcome"] == "hang" {
+				w.Close() // one is a verdict; the others would cost a minute each
+				return
+			}
 		}
 	}
 	w.Close()
@@ -335,8 +341,33 @@ func tryMove(ctx context.Context, e *engine.Engine, s string) (ev out.M) {
 			ev["rec1"] = rec0
 		}
 	}()
-	err := e.Move(ctx, s)
-	if err != nil {
+	// a call that has not returned after a minute never will (no search is running): recorded as such, and
+	// the engine is not touched again (it may be holding its lock)
+	type resT struct {
+		err error
+		pan interface{}
+	}
+	done := make(chan resT, 1)
+	go func() {
+		defer func() {
+			if r := recover(); r != nil {
+				done <- resT{pan: r}
+			}
+		}()
+		done <- resT{err: e.Move(ctx, s)}
+	}()
+	var res resT
+	select {
+	case res = <-done:
+	case <-time.After(60 * time.Second):
+		ev["outcome"] = "hang"
+		ev["rec1"] = rec0
+		return ev
+	}
+	if res.pan != nil {
+		panic(res.pan)
+	}
+	if res.err != nil {
 		ev["outcome"] = "rejected"
 	} else {
 		ev["outcome"] = "accepted"
